@@ -8,6 +8,7 @@
       the error analysis of the imported object must equal that of the original.
 """
 import contextlib
+import copy
 import gzip
 import io
 import json
@@ -223,6 +224,9 @@ def cases_for(rng, n, ctx, tmp):
         if kind == 'dict':
             x = {'a': make_structure(rng, 'obs'), 'b': {'c': make_structure(rng, 'list'), 'd': 'text', 'e': [1, 2.5, None]},
                  'corr': make_structure(rng, 'corr'), 'key 3': make_structure(rng, 'array')}
+            if i % 3 == 2:
+                for q in range(int(rng.integers(8, 13))):          # more than ten structures in one dictionary
+                    x['entry %02d' % q] = make_structure(rng, 'obs')
             before = doc_any(x)
             dn0 = analysis_numbers(x)
             r = _quiet(lambda: pe.input.json.dump_dict_to_json(x, fn, gz=gz, indent=indent))
@@ -235,6 +239,14 @@ def cases_for(rng, n, ctx, tmp):
             if transport in ('df_csv', 'df_sql'):
                 cells = x if kind == 'multi' else [x]
                 cells = [c for c in cells if isinstance(c, (pe.Obs, pe.Corr))] or [make_structure(rng, 'obs')]
+                firsto = [c for c in cells if isinstance(c, pe.Obs)]
+                if firsto and rng.random() < 0.6:
+                    # cells that are numerically (almost) the same observable are different cells: another tag, a value 3e-12 away
+                    twin = copy.deepcopy(firsto[0])
+                    twin.tag = 'the twin'
+                    near = firsto[0] + 3e-12 * (abs(firsto[0].value) + 1.0)
+                    near.tag = firsto[0].tag
+                    cells = cells + [twin, near]
                 df = pd.DataFrame({'idx': list(range(len(cells))), 'label': ['r%d' % k for k in range(len(cells))], 'data': cells})
                 if all(isinstance(c, pe.Obs) for c in cells):
                     pass
